@@ -21,7 +21,10 @@ FAMILY = dict(FAMILY, new="tolerant-new-containers")
 ALPHABET = list("=(){}<>,;\"'#/*-+.:_ \t\n\r\f\v\0") + list("0123456789") + \
     list("eETZ") + ["END", "GROUP", "END_OBJECT", "16#", "-\n", "/*", "*/",
                     "END_GROUP", "OBJECT", "= =", "é", "€", "NULL",
-                    "<", ">", "2001-01-0", "T12:00", "+1", "#", "&"]
+                    "<", ">", "2001-01-0", "T12:00", "+1", "#", "&",
+                    # empty delimited things
+                    "<>", "< >", "<\n>", "()", "{}", "(,)", '""', "''",
+                    "/**/", "= <m>", "5 <>"]
 
 _CORPUS = None
 
